@@ -6,6 +6,7 @@ import functools
 import re
 
 from ..pymodel import package
+from ..core import AnalysisError
 
 EXPLANATION = (
     "R1 in every module that takes part in building or rendering a network, no for / comprehension / join / list() iterates a set-typed value "
@@ -1223,7 +1224,16 @@ def krome_reset(ctx, pkg, rule="R4"):
     for mname in ("add_reaction_from_file", "add_reaction"):
         # a reset that happens on ENTERING a `with` block (a context manager of the module bracketing the reading) is the reset
         # written in front of the block
-        fn = inline_context_managers(copy.deepcopy(net.methods[mname]), module_level)
+        # (private helpers of the class / module the method was split into -- the reset, the reading loop -- are put back first, so
+        # that order and conditions are read as if nothing had been extracted; the parsing call itself stays the call it is.  The
+        # statements of a helper carry the line numbers of where they were written: renumbered in statement order)
+        base_fn = net.methods[mname]
+        try:
+            exp = ast.parse(ast.unparse(pkg.expanded("Network", mname, keep=("_add_reaction",)))).body[0]
+            ast.increment_lineno(exp, base_fn.lineno - 1)
+        except (AnalysisError, RecursionError, SyntaxError, IndexError):
+            exp = copy.deepcopy(base_fn)
+        fn = inline_context_managers(exp, module_level)
         fl = Flow(fn, NF)
         init_calls = [f for f in fl.facts if f.kind == "call" and f.target == "initialize" and f.value is not None and f.value[0] == "meth" and not f.value[3]]
         reads_lines = [n.lineno for n in ast.walk(fn) if isinstance(n, ast.Call) and ast.unparse(n.func) == "self._add_reaction"]
